@@ -28,6 +28,24 @@ import threading
 
 _TLS = threading.local()
 EXIT_KILLED = 77
+_BACK = threading.Semaphore(0)  # one baton for the whole process: orphans of a dead driver are stepped by the next one
+ORPHANS: list = []  # in-flight tasks whose parent "died" (they finish their current task, as pebble workers do)
+_INCARNATION = [0]
+_REAL_GETPID = os.getpid
+
+
+class ParentDied(BaseException):
+    """Only the parent process of a parallel run is killed; its workers live on as orphans."""
+
+
+def _fake_getpid() -> int:
+    return getattr(_TLS, "pid", None) or _REAL_GETPID()
+
+
+def install_worker_pids() -> None:
+    """Every simulated worker reports its own process id (threads of one process would
+    otherwise all share the parent's): os.getpid() inside a task thread is the worker's."""
+    os.getpid = _fake_getpid
 
 
 def in_task() -> bool:
@@ -39,14 +57,14 @@ def yield_point(label: str) -> None:
     cur = getattr(_TLS, "task", None)
     if cur is None:
         return
-    ls, t = cur
+    _, t = cur
     t.at = label
-    ls.back.release()
+    _BACK.release()
     t.go.acquire()
 
 
 class _Task:
-    __slots__ = ("idx", "payload", "state", "go", "outcome", "steps", "at", "thread")
+    __slots__ = ("idx", "payload", "state", "go", "outcome", "steps", "at", "thread", "pid")
 
     def __init__(self, idx: int, payload) -> None:  # noqa: ANN001
         self.idx = idx
@@ -57,6 +75,7 @@ class _Task:
         self.steps = 0
         self.at = "queued"
         self.thread = None
+        self.pid = 0
 
 
 class LockstepResults:
@@ -71,7 +90,10 @@ class LockstepResults:
         self.n = len(self.tasks)
         self.cursor = 0
         self.next_unstarted = 0
-        self.back = threading.Semaphore(0)
+        _INCARNATION[0] += 1
+        for t in self.tasks:
+            t.pid = 40000 + _INCARNATION[0] * 1000 + (t.idx % max(1, self.W))
+        self.orphans = [o for o in ORPHANS if o.state == "parked"] if getattr(self.plan, "adopt_orphans", False) else []
         self.rng = random.Random((self.plan.seed * 1000003 + self.plan.maps * 7919 + self.n * 31 + 17) & 0xFFFFFFFFFFFF)
         self.schedule: list = []
         self.choices: list[int] = []  # the schedule as data: -1 = start, i = advance task i
@@ -88,6 +110,7 @@ class LockstepResults:
     # -- task thread ------------------------------------------------------
     def _body(self, t: _Task) -> None:
         _TLS.task = (self, t)
+        _TLS.pid = t.pid
         t.go.acquire()
         try:
             fn, args = pickle.loads(t.payload)  # noqa: S301
@@ -103,14 +126,17 @@ class LockstepResults:
         t.at = "done"
         t.state = "done"
         _TLS.task = None
-        self.back.release()
+        _BACK.release()
 
     # -- driver -----------------------------------------------------------
     def _parked(self) -> list[_Task]:
         return [t for t in self.tasks if t.state == "parked"]
 
+    def _orphans_parked(self) -> list[_Task]:
+        return [o for o in self.orphans if o.state == "parked"]
+
     def _can_step(self) -> bool:
-        return bool(self._parked()) or self._startable()
+        return bool(self._parked()) or self._startable() or bool(self._orphans_parked())
 
     def _startable(self) -> bool:
         while self.next_unstarted < self.n and self.tasks[self.next_unstarted].state != "new":
@@ -120,6 +146,12 @@ class LockstepResults:
     def _tick(self) -> None:
         plan = self.plan
         if plan.yields == plan.kill_at_yield:
+            if getattr(plan, "parent_only", False):
+                # only the parent dies: what is in flight lives on, what is queued never starts
+                plan.parent_dead = True
+                ORPHANS.extend(t for t in self.tasks if t.state == "parked" and t.at != "start")
+                plan.kill_at_yield = -1
+                raise ParentDied
             os._exit(EXIT_KILLED)
         plan.yields += 1
 
@@ -137,13 +169,14 @@ class LockstepResults:
         self.max_inflight = max(self.max_inflight, inflight)
         t.steps += 1
         t.go.release()
-        self.back.acquire()
+        _BACK.acquire()
         self.schedule.append((t.idx, t.at))
 
     def _step(self, stalled: _Task | None = None) -> bool:
         cands: list = [t for t in self._parked() if t is not stalled]
         if self._startable():
             cands.append("start")
+        cands += self._orphans_parked()  # workers of a dead parent, still finishing their task
         if not cands:
             return False
         if self.script is not None:
